@@ -1,2 +1,4 @@
 def run(ctx):
-    return ""
+    from . import factorize_proofs
+
+    return factorize_proofs.run(ctx, ["offset", "ravel2"])
